@@ -83,6 +83,7 @@ RunInit(out, e) ==
    bigSeen |-> FALSE,           \* an argument at the integer limits has been passed in this run
    faulted |-> FALSE,
    crashed |-> FALSE,           \* the current directory is a post-crash image not yet reopened
+   img |-> <<>>,                \* that image: [ck, keep, zeros, tail, synced, written] per file
    evmoved |-> FALSE,           \* a boundary update happened (or was in flight) since the pending call began
    evfly |-> FALSE,             \* the worker announced a boundary update and has not been seen past it yet
    wactive |-> FALSE,           \* worker events seen since the last idle point
@@ -177,16 +178,20 @@ FsStep(m0, e) ==
              hi == NextCk(m2, e.ck, m2.jend)
              obs == SelectSeq(m2.obsolete, LAMBDA o : o.ck = e.ck)
              \* (a) oldest first
-             m3 == IF j # 0 /\ linked # {} /\ e.ck # SetMin(linked)
+             \* (the worker deletes oldest-first; recovery may only drop the newest file, and only when it holds
+             \*  no complete record -- either way the remaining files stay a gap-free run starting with a snapshot)
+             m3 == IF j # 0 /\ linked # {} /\ (IF isw THEN e.ck # SetMin(linked)
+                                                ELSE e.ck # SetMax(linked) \/ m2.files[j].w > 0)
                    THEN ViolKeep(m2, "C08", "unlink_not_oldest", e, [ck |-> e.ck, oldest |-> SetMin(linked)])
                    ELSE m2
              \* (b) nothing live is stored in it
-             m4 == IF ~m3.tainted /\ m3.sizeok /\ LiveIn(m3, e.ck, hi) # {}
+             \* (while a crashed directory is being recovered the reference state is the pre-crash one: skip)
+             m4 == IF ~m3.tainted /\ ~m3.crashed /\ m3.sizeok /\ LiveIn(m3, e.ck, hi) # {}
                    THEN ViolKeep(m3, "C08", "unlink_live_entries", e,
                                  [ck |-> e.ck, live |-> {m3.loc[x].i : x \in LiveIn(m3, e.ck, hi)}])
                    ELSE m3
              \* (c) what made it obsolete is durable in the files that remain
-             m5 == IF ~m4.tainted /\ m4.sizeok /\ obs # <<>> /\ ~DurableThrough(m4, hi, obs[1].at)
+             m5 == IF ~m4.tainted /\ ~m4.crashed /\ m4.sizeok /\ obs # <<>> /\ ~DurableThrough(m4, hi, obs[1].at)
                    THEN ViolKeep(m4, "C08", "unlink_before_purge_durable", e,
                                  [ck |-> e.ck, at |-> obs[1].at, files |-> UndurableFiles(m4, hi, obs[1].at),
                                   after_failed_sync |-> \E x \in 1..Len(m4.files) : m4.files[x].sf])
@@ -448,7 +453,18 @@ OpenReturn(m0, e) ==
   IF rc = "panic"
   THEN Viol(m, IF wasCrash THEN "C05" ELSE IF first THEN "C16" ELSE "C02", "open_panic", e, [res |-> e.res, dir |-> e.dir])
   ELSE IF rc = "err"
-  THEN IF wasCrash THEN Viol(m, "C05", "open_failed_after_crash", e, [res |-> e.res, cls |-> e.cls, dir |-> e.dir])
+  THEN IF wasCrash /\ ~m.pend.args.tr /\ \E k \in 1..Len(m.img) : m.img[k][4] # "none"
+       THEN \* tail truncation is disabled and the image holds an incomplete / zero tail: refusing is the
+            \* configured behaviour (C10), not a recoverability failure
+            [Note(m, "refused_tail_truncation_disabled", e) EXCEPT !.tainted = TRUE]
+       ELSE IF wasCrash
+       THEN \* known finding F4 is identified narrowly: the store refuses with "gap" and in the image some file is
+            \* shorter than the name of its successor accounts for (the successor was created before the
+            \* predecessor's tail was written/durable)
+            Viol(m, "C05", "open_failed_after_crash", e,
+                 [res |-> e.res, cls |-> e.cls, dir |-> e.dir, img |-> m.img,
+                  short_pred |-> \E k \in 1..(Len(m.img) - 1) :
+                                    m.img[k][4] # "none" \/ m.img[k][1] + m.img[k][2] + m.img[k][3] < m.img[k + 1][1]])
        ELSE IF m.faulted THEN [Note(m, "open_failed_after_fault", e) EXCEPT !.tainted = TRUE]
        ELSE Viol(m, IF m.rejSeen THEN "C06" ELSE "C02", "open_failed", e, [res |-> e.res, dir |-> e.dir])
   ELSE
@@ -647,11 +663,65 @@ FsAfterDrop(m, e) ==
 CrashStep(m, e) ==
   \* the directory is now the image described by e.img: [ck, keep, zeros, tail, synced, written]
   LET bad == {k \in 1..Len(e.img) : e.img[k][2] < e.img[k][5] \/ e.img[k][2] > e.img[k][6]}
-      m1 == [Cnt(m, "crashes") EXCEPT !.crashed = TRUE, !.open = FALSE, !.pend = NoPend,
+      m1 == [Cnt(m, "crashes") EXCEPT !.crashed = TRUE, !.open = FALSE, !.pend = NoPend, !.img = e.img,
                  !.files = [k \in 1..Len(e.img) |-> [ck |-> e.img[k][1], w |-> e.img[k][2] + e.img[k][3],
                                                     d |-> e.img[k][2] + e.img[k][3], linked |-> TRUE, sf |-> FALSE]],
                  !.wl = [k \in 1..Len(@) |-> [@[k] EXCEPT !.dropped = TRUE]], !.dropAcked = FALSE]
   IN IF bad # {} THEN [Note(m1, "image_outside_crash_model", e) EXCEPT !.tainted = TRUE] ELSE m1
+
+-----------------------------------------------------------------------------
+(* Crash probes (branch events): the harness materialised the image e.img of the directory as it was   *)
+(* right after the preceding FS event, opened it with the real RaftLog::open, continued and reopened.   *)
+(* The main-line state is not changed.                                                                   *)
+
+\* the image is one the crash model allows, judged by the monitor's OWN extents:
+\* every linked file is present and keeps at least its durable and at most its written bytes
+ImageAllowed(m, img) ==
+  /\ {img[k][1] : k \in 1..Len(img)} = LinkedCks(m)
+  /\ \A k \in 1..Len(img) :
+        LET j == FileIdx(m, img[k][1]) IN
+        j # 0 /\ img[k][2] >= m.files[j].d /\ img[k][2] <= m.files[j].w
+
+\* reference states the write in progress (if any) may have produced: each prefix of its records
+PendingViews(m) ==
+  IF m.pend.op \in {"vote", "truncate", "purge", "commit", "userdata"}
+  THEN LET x == RefApply(m.ref, m.pend.op, m.pend.args) IN IF x.ok /\ x.legal THEN {RefView(x.st)} ELSE {}
+  ELSE IF m.pend.op = "append"
+       THEN {RefView(AppendSeq(m.ref, SubSeq(m.pend.args.es, 1, j)).st) : j \in 1..Len(m.pend.args.es)}
+       ELSE {}
+
+ProbeStep(m0, e) ==
+  LET m == Cnt(m0, "probes") IN
+  IF e.kind # "crash" THEN m
+  ELSE IF ~ImageAllowed(m, e.img) THEN Note(m, "probe_image_outside_crash_model", e)
+  ELSE IF e.rc = "panic" THEN ViolKeep(m, "C05", "recovery_panicked", e, [res |-> e.res, img |-> e.img])
+  ELSE IF e.rc = "err"
+  THEN IF ~e.tr /\ \E k \in 1..Len(e.img) : e.img[k][4] # "none"
+       THEN IF e.same THEN m ELSE ViolKeep(m, "C10", "refused_open_modified_files", e, [img |-> e.img])
+       ELSE ViolKeep(m, "C05", "open_failed_after_crash", e,
+                     [res |-> e.res, cls |-> e.cls, dir |-> e.files_after, img |-> e.img,
+                      short_pred |-> \E k \in 1..(Len(e.img) - 1) :
+                                        e.img[k][4] # "none" \/ e.img[k][1] + e.img[k][2] + e.img[k][3] < e.img[k + 1][1]])
+  ELSE
+  LET o == e.obs
+      ks == {k \in m.acked..m.nacc : k >= m.vbase /\ RefView(m.views[k - m.vbase + 1]) = ObsView(o)}
+      inPend == ObsView(o) \in PendingViews(m)
+  IN
+  IF o.esr # "ok" THEN ViolKeep(m, "C03", "read_error_after_recovery", e, [esr |-> o.esr, img |-> e.img])
+  ELSE IF ks = {} /\ ~inPend
+  THEN ViolKeep(m, "C03", "recovered_state_is_no_acked_prefix", e,
+                [got |-> ObsView(o), acked |-> m.acked, nacc |-> m.nacc, img |-> e.img,
+                 lost_acked |-> \E k \in m.vbase..(m.acked - 1) : RefView(m.views[k - m.vbase + 1]) = ObsView(o)])
+  ELSE IF e.cont.res = "skipped" THEN m
+  ELSE IF e.cont.rc # "ok"
+  THEN ViolKeep(m, "C05", "recovered_store_not_usable", e, [res |-> e.cont.res, img |-> e.img])
+  ELSE \* the continuation (append the next entry, flush, reopen) must yield recovered + that entry
+       LET ent == e.cont.entry
+           want == [st |-> [o.st EXCEPT !.l = <<ent[1], ent[2]>>], es |-> Append(o.es, ent)]
+       IN IF e.cont.obs2.esr # "ok" \/ ObsView(e.cont.obs2) # want
+          THEN ViolKeep(m, "C05", "recovered_store_inconsistent_after_continuation", e,
+                        [got |-> ObsView(e.cont.obs2), want |-> want, img |-> e.img])
+          ELSE m
 
 -----------------------------------------------------------------------------
 
@@ -676,6 +746,7 @@ MonStep(m0, e) ==
     [] e.e = "locktry" -> LockTryStep(m, e)
     [] e.e = "pt" -> PtStep(m, e)
     [] e.e = "crash" -> CrashStep(m, e)
+    [] e.e = "probe" -> ProbeStep(m, e)
     [] e.e = "fault" -> [m EXCEPT !.faulted = TRUE]
     [] OTHER -> m
 
@@ -688,5 +759,5 @@ KnownFinding(v) ==
      /\ v.d.f5                                                                                   \* F5
   \/ /\ v.p = "C16" /\ v.k = "panic" /\ v.d.at_integer_limit
      /\ v.d.res = "panic:attempt to add with overflow"                                           \* F2c
-  \/ /\ v.p = "C05" /\ v.k = "open_failed_after_crash" /\ v.d.cls = "gap" /\ v.d.short_pred   \* F4
+  \/ /\ v.p = "C05" /\ v.k = "open_failed_after_crash" /\ v.d.cls \in {"gap", "empty_chunk"} /\ v.d.short_pred   \* F4
 =============================================================================
